@@ -23,6 +23,10 @@ META["explanation"] += " " + '(BORROW) no raw pointer into the output stream out
 UNICODE_MAX = 0x10FFFF
 
 
+META["explanation"] += " " + 'Taken over unchanged from other modules because a seeded change to this property was reported by them (rules.common.shared): SB-bytes from C14; BORROW from C05.'
+
+META["explanation"] += " " + 'Also taken over (a rule id already present here is kept as id/module): ZB-read/BORROW from C05.'
+
 def C(x):
     return Val.const(x)
 
@@ -572,9 +576,22 @@ def rule_hex(ctx, m):
     return r
 
 
-def run(ctx):
+def _run_own(ctx):
     m = ctx.pattern()
     out = [rule_utf(ctx, m)]
     out += rule_surrogate(ctx, m)
     out.append(rule_hex(ctx, m))
     return out
+
+
+def run(ctx):
+    rules_ = list(_run_own(ctx) or [])
+    from rules.common import shared
+    have = set(r_.rid for r_ in rules_)
+    rules_ += [r_ for r_ in shared(ctx, 'C14', ['SB-bytes']) if r_.rid not in have]
+    rules_ += [r_ for r_ in shared(ctx, 'C05', ['BORROW']) if r_.rid not in have]
+    for r_ in shared(ctx, 'C05', ['ZB-read', 'BORROW']):
+        if r_.rid in set(x.rid for x in rules_):
+            r_.rid = r_.rid + "/C05"
+        rules_.append(r_)
+    return rules_
